@@ -139,6 +139,7 @@ func c07BodyOpt(c *run.Ctx, interval int, forceNoHold bool) {
 	var hooks sim.Hooks
 	noOpenAfter := 0 // event seq after which no opened snapshot may follow (0 = none)
 	noOpenWhy := ""
+	var inhandSetupAt time.Time // last SetUpTableGame issued while the current hand ran (before the call)
 	hooks.Event = func(s *sim.Sim, e *sim.Event) {
 		if e.Table == nil || (e.Kind != "table" && e.Kind != "state") {
 			return
@@ -162,6 +163,21 @@ func c07BodyOpt(c *run.Ctx, interval int, forceNoHold bool) {
 			raceSettled = true
 			l.override = raceSig
 		}
+		// A set-up call made while the hand ran (nobody confirms it) completes by its 2 s timeout;
+		// when that falls between the settlement and the engine's own set-up of the next hand
+		// (the table is in standby then, which is never published by itself) the hand it opens
+		// follows the settled snapshot directly. This is the effect of the external call, not a
+		// move of the table left to itself - accepted only when the timeout can have fired.
+		byInhandGate := cls == "opened" && !inhandSetupAt.IsZero() && e.At.Sub(inhandSetupAt) >= 1900*time.Millisecond
+		if byInhandGate && statusClass(l.last) == "settled" && !standbySeen && !raceSettled {
+			// the open fell into the continue delay of the settled hand: the engine's delayed continue
+			// step is still to come and is not serialised with this hand (root cause of the recorded
+			// finding, reached here through another external trigger). The case ends here, counted.
+			s.Label("opened_by_timeout_of_inhand_setup")
+			s.Label(fmt.Sprintf("hands_%d", len(s.Hands)))
+			c.St.Case(s.Labels(), true, traceOf(s), sampleOf(s))
+			c.End()
+		}
 		l.step(s, e, standbySeen || raceSettled)
 		if cls == "opened" && t.State.GameState == nil && e.Kind == "table" {
 			// the opened snapshot of a new hand
@@ -178,6 +194,7 @@ func c07BodyOpt(c *run.Ctx, interval int, forceNoHold bool) {
 			l.openHand = true
 			l.curGameID = ""
 			standbySeen = false
+			inhandSetupAt = time.Time{}
 		}
 		if gs := t.State.GameState; gs != nil && l.openHand && l.curGameID == "" {
 			if l.gameIDs[gs.GameID] {
@@ -451,6 +468,7 @@ func c07BodyOpt(c *run.Ctx, interval int, forceNoHold bool) {
 				m[id] = i
 			}
 			gc := t.State.GameCount + c.Ch.Int("ctl.setup.gc", 0, 1)
+			inhandSetupAt = time.Now()
 			s.API.SetUpTableGame(gc, m)
 			// consume the decorator's fence for this set-up here, so that it is not mistaken for the next hand's
 			s.WaitFor(s.StepWait, func(e *sim.Event) bool { return e.Kind == "gate" })
